@@ -201,6 +201,21 @@ func init() {
 		var s value = nativeObj{re}
 		return &s
 	}
+	externals["regexp.QuoteMeta"] = func(fr *frame, args []value) value {
+		if s, ok := args[0].(string); ok {
+			return regexp.QuoteMeta(s)
+		}
+		// every metacharacter byte gets a backslash: per-byte decision
+		segs := strSegs(fr.i.ex.flatten(args[0]))
+		var out []Seg
+		for _, sg := range segs {
+			if fr.inSet(sg, `\.+*?()|[]{}^$`) {
+				out = append(out, byteSeg('\\'))
+			}
+			out = append(out, sg)
+		}
+		return mkString(out)
+	}
 	externals["(*regexp.Regexp).FindAllString"] = func(fr *frame, args []value) value {
 		re := (*args[0].(*value)).(nativeObj).v.(*regexp.Regexp)
 		n := int(fr.concreteInt(args[2], "n"))
